@@ -12,8 +12,9 @@
        the date found — the date itself counts when it already has that weekday.
     A `date` operand becomes a `datetime` exactly when the delta carries time information.
 
-  Errors: a result of steps 1–2 that is not a valid date/time is a ValueError, leaving years
-  1..9999 in steps 3–4 is an OverflowError (the behaviour of `datetime`).
+  Errors: a result of steps 1–2 that is not a valid date/time is a ValueError (an OverflowError
+  when a field does not even fit a C int), leaving years 1..9999 in steps 3–4 is an OverflowError
+  (the behaviour of `datetime`).
   No Mathlib import (linked into the driver; `rd.spec` is the oracle of C03).
 -/
 import DateutilVerif.Base.Time
@@ -67,6 +68,7 @@ def apply (d : RD) (x : Temporal) : Py.R Temporal :=
   let t1 : DT := { y := s.1, m := s.2.1, d := s.2.2,
                    hh := d.hour.getD x.t.hh, mm := d.minute.getD x.t.mm,
                    ss := d.second.getD x.t.ss, us := d.microsecond.getD x.t.us }
+  if ¬ RDM.fitsCInt t1 then .error .OverflowError else     -- CPython: does not fit a C int
   if ¬ t1.Valid then .error .ValueError else
   let x2 := t1.toMicros + duration d (decide (s.2.1 > 2) && Cal.isLeap s.1)
   if x2 < DT.minMicros ∨ x2 > DT.maxMicros then .error .OverflowError else
